@@ -7,6 +7,19 @@ props = [json.loads(l) for l in open(os.path.join(ROOT, "properties.jsonl"))]
 S = "bounded-exhaustive operation-sequence exploration + explicit-state BFS of the real in-memory cache (Engine S) against a reference model"
 V = "stateless deviation-bounded exploration of the real hybrid cache under a deterministic runtime and sim IO engine (Engine V)"
 CHECKS = {
+ "C02": ("T", "model_checking", "preemption-bounded exhaustive exploration of thread interleavings of the real in-memory cache under a cooperative scheduler bound through a parking_lot facade (Engine T); per-key register oracle in the statement's form",
+   "All pairs of single operations for two threads, 2-vs-1 operation programs, three-thread programs; three initial states; LRU/S3-FIFO/FIFO (quick) or all five (thorough); shards 1 (1,2,4); every interleaving with <=2 (3) preemptions.",
+   "Lock acquire/release, spawn, join and exit are the scheduling points; adjacent plain atomics are not split; SC only; resize and get_or_fetch are not run concurrently here.", "DESIGN.md 2.5, 4 C02"),
+ "C08": ("inputs", "model_checking", "exhaustive input enumeration (every value of the small types, every byte-string length 0..=20480, every destination-buffer length) on the real encode/decode and end to end through the real hybrid cache, with the independent format reader D",
+   "All u8/i8/u16/i16/bool values, pattern sets for wider types, Strings, Vec<u8>/Bytes of every length x 3 content classes; every too-small destination length; end-to-end insert->flush->evict->get->reopen->get for every (second) length x none/zstd/lz4.",
+   "The foyer/serde (bincode) Code path is not built; wide numeric types are covered by bit patterns, not exhaustively.", "DESIGN.md 4 C08"),
+ "C09": ("V", "model_checking", V + "; monitors on the device-write log and on pre-images parsed by the independent reader D",
+   "Sustained workloads of ~4 device capacities on 4/6/8 blocks, flushers 1-3, reclaimers 1-2, clean threshold 1-2, reinsertion none/one key; Eager/LazyIo/Alternate(/ClientFirst) with all schedules within the deviation bound.",
+   "Workloads are a fixed family; what is exhaustive is the schedule space within the bound; reinsertion is configured modestly (the crate documents that picking too much gets it stuck).", "DESIGN.md 4 C09"),
+ "C16": ("S+T", "model_checking", "bounded-exhaustive sequence exploration with re-entrant callbacks under a lock-holding monitor (Engine S + parking_lot facade) and preemption-bounded thread exploration with deadlock detection (Engine T)",
+   "All sequences of <=3 (4) operations incl. in-flight fetches x five algorithms x re-entry mode; listener, weighter, filter, key and value destructors assert that no cache lock is held and call back into the cache; C02's thread programs with deadlock detection.",
+   "std::sync::RwLock in the block manager is not intercepted; hybrid-tier destructors are not instrumented.", "DESIGN.md 4 C16"),
+
  "C03": ("F", "fault_enumeration", "exhaustive single-page fault enumeration (zero / bit flips / page swaps / stale generations) over device images produced by real workloads, each reopened and fully read through the real code (enumerator F on Engine V images)",
    "Every page of every partition file incl. the tombstone log x the fault menu; 2 base images (quick) / 12 (thorough: compression x tombstone log x fresh/wrapped).",
    "Single-page faults only; values carry key+version+deterministic payload so any foreign or garbage byte is visible; worker death while evaluating an image is reported as a verdict (journal).", "DESIGN.md 2.8, 4 C03"),
@@ -44,12 +57,12 @@ CHECKS = {
  "C15": ("V", "model_checking", V + "; close + reopen + read-back",
    "All histories of <=3 (4) calls ending in close / close;close / close;insert, reopen, read all; policies x flush_on_close.",
    "Resident sets far below the flush buffer; no disk-capacity eviction.", "DESIGN.md 4 C15"),
- "C17": ("V", "model_checking", V + " with a colliding user hasher; oracle R",
+ "C17": ("V+S", "model_checking", V + " and Engine S, both with a colliding user hasher; oracle R / ledger",
    "Keys 1,2 share a 64-bit hash (key 3 shares only shards): all histories of <=3 (4) calls, both policies, with restarts.",
-   "Hybrid part only so far; the memory-only part runs the Engine S driver with the same hasher when built.", "DESIGN.md 4 C17"),
- "C18": ("S", "model_checking", S + " (handle ledger)",
+   "Hybrid part: Engine V; memory-only part: the Engine S driver under the same colliding hasher (both run by the one check).", "DESIGN.md 4 C17"),
+ "C18": ("S+T", "model_checking", S + " (handle ledger) plus Engine T for the pin/unpin/evict races",
    "All sequences to depth 3 (4) + BFS over insert/get/touch/clone/drop/replace/remove/clear/resize; handles re-read after every step; refs() and is_outdated() compared with the ledger; fresh insert after all handles are dropped must restore the bound.",
-   "Single caller thread here; thread interleavings belong to Engine T.", "DESIGN.md 4 C18"),
+   "Sequential part single-threaded; thread part: 2-3 threads, <=2 (3) preemptions, lock-granular scheduling points.", "DESIGN.md 4 C18"),
 }
 checks = []
 for pid, (engine, cat, tech, text, note, ref) in sorted(CHECKS.items()):
@@ -76,8 +89,9 @@ manifest = {
         "add_only": True,
     },
     "engines": [
-        {"name": "S", "path": "harness/checks/src/seq.rs", "serves_properties": ["C05", "C13", "C14", "C18"], "kind_free_text": "exhaustive operation sequences + explicit-state BFS on the real in-memory cache, lock-step with a reference ledger / reference algorithms"},
-        {"name": "V", "path": "harness/checks/src/hyb.rs", "serves_properties": ["C01", "C06", "C07", "C10", "C11", "C12", "C15", "C17"], "kind_free_text": "deviation-bounded stateless exploration of the real hybrid cache: vrt (madsim-tokio substitute) owns task polling, simio owns device IO completion/failure, the client program owns call timing"},
+        {"name": "S", "path": "harness/checks/src/seq.rs", "serves_properties": ["C05", "C13", "C14", "C16", "C17", "C18"], "kind_free_text": "exhaustive operation sequences + explicit-state BFS on the real in-memory cache, lock-step with a reference ledger / reference algorithms"},
+        {"name": "V", "path": "harness/checks/src/hyb.rs", "serves_properties": ["C01", "C06", "C07", "C09", "C10", "C11", "C12", "C15", "C17"], "kind_free_text": "deviation-bounded stateless exploration of the real hybrid cache: vrt (madsim-tokio substitute) owns task polling, simio owns device IO completion/failure, the client program owns call timing"},
+        {"name": "T", "path": "harness/checks/src/props_c02.rs + harness/plshim", "serves_properties": ["C02", "C16", "C18"], "kind_free_text": "preemption-bounded exploration of OS-thread interleavings: plshim (parking_lot substitute) turns every lock operation into a scheduling point of a cooperative scheduler"},
         {"name": "F/K", "path": "harness/checks/src/props_c03.rs, props_c04.rs", "serves_properties": ["C03", "C04"], "kind_free_text": "fault / crash enumerators over images and IO logs produced by Engine V, evaluated by real recovery"},
         {"name": "core", "path": "harness/vcore", "serves_properties": sorted(done), "kind_free_text": "iterative deviation bounding, replay files, evidence, known findings, process sharding"},
     ],
